@@ -6,14 +6,16 @@
   * `R` is `Except String`: `.error` models a Go panic (or exhausted fuel); "∃ r, f x = .ok r" is
     therefore "no panic, the loop terminates within its fuel".
   * `allN p b` : `p ty attrs children` holds at every box of `b` reachable through children without
-    entering a running box (`position: running()`; every pass but BlockInInline returns those unchanged).
+    entering a running box (`position: running()`; every pass returns those unchanged).
   * The clauses `bcOK` (= `blockContainerOK`), `fgOK` (= `flexGridOK`), `gridOK`, `linesClean` are the
     clauses of the spec `WF` (WR/C09/Spec.lean) or imply them; `preIIB`, `preFG`, `linesAlone` describe the
     shape an earlier pass leaves behind.
 
-  Two statements of the property are FALSE for the code as it is (both confirmed on the real code, see
-  known_findings.d/C09.json); for each the full statement is kept in a comment, the provable part is a
-  theorem named `…_partial`, and a concrete counterexample is proved (`…_witness`).
+  One statement of the property is FALSE for the code as it is (confirmed on the real code, KF09-1 in
+  known_findings.d/C09.json): the full statement is kept in a comment, the provable part is a theorem named
+  `…_partial`, and a concrete counterexample is proved (`grid_disjoint_witness`).  A second one (KF09-2:
+  BlockInInline split running inline boxes) was found by the same route, fixed in /repo (5d2802b), the model
+  re-aligned; its former counterexample is now the regression example `running_inline_kept`.
 -/
 import WR.C09.LemmasGrid
 import WR.C09.LemmasIIB
@@ -23,6 +25,7 @@ import WR.C09.LemmasFlex
 import WR.C09.LemmasTable
 import WR.C09.LemmasFinal
 import WR.C09.LemmasWeaken
+import WR.C09.LemmasOverlap
 namespace WR.Props.C09
 open WR.C09
 
@@ -86,6 +89,21 @@ theorem grid_disjoint_colspan1 (g g' : Box) (h : groupGo g = .ok g')
     (hcs : ∀ row ∈ g.kids, ∀ c ∈ rowCells row, c.a.colspan = 1) : gridOK g'.ty g'.kids = true :=
   groupGo_gridOK g g' h hcs
 
+/-- … and whenever two cells of the model's output do share a slot, it is in the one situation of
+    `overlap175`: a cell of an earlier row spanning several rows and a cell of a later row spanning several
+    columns that starts left of it (what CSS 2.1 §17.5 leaves undefined and TestColspanRowspan1 expects) -/
+theorem grid_overlaps_only_175 (g g' : Box) (h : groupGo g = .ok g')
+    (hc : ∀ row ∈ g.kids, ∀ c ∈ rowCells row, 1 ≤ c.a.colspan) : overlapsOnly175 g'.kids = true :=
+  groupGo_overlapsOnly175 g g' h hc
+
+/-- the same from the weak grid clause alone, for any tree (used to read `wfw`) -/
+theorem overlaps_only_175_of_weak_clause (kids : List Box) (h : gridOKw .tableRowGroup kids = true) :
+    overlapsOnly175 kids = true := by
+  simp only [gridOKw, Bool.or_eq_true, Bool.and_eq_true] at h
+  rcases h with h | ⟨⟨h1, _⟩, h3⟩
+  · exact absurd h (by decide)
+  · exact overlapsOnly175_of_firstSlotsOK kids h1 h3
+
 example : ∀ row ∈ witnessGroup.kids.take 1, ∀ c ∈ rowCells row, c.a.colspan = 1 := by decide
 
 /-- the counterexample to `grid_disjoint`: rows `[1×1, 1×2]`, `[2×1]` (colspan×rowspan) -/
@@ -125,51 +143,43 @@ theorem blockInInline_total (b : Box) (h : allAll linesAlone b = true) :
     ∃ b', blockInInline b = .ok b' ∧ b'.ty = b.ty ∧ b'.a = b.a :=
   WR.C09.blockInInline_total b h
 
-/-- the same with hypotheses that stop at running boxes, provided no line box is running and no inline
-    box reachable from a line is running (BlockInInline enters those although `allN` does not) -/
+/-- the same with hypotheses that stop at running boxes, provided no line box is running (a line box is
+    anonymous and never running in a real tree; InlineInBlock creates them non-running, see
+    `inline_passes_wf`) -/
 theorem blockInInline_total_flow (b : Box) (h : allN linesAlone b = true)
-    (h3 : allN linesNoRunningInline b = true) (h4 : allN linesNotRunning b = true) :
+    (h4 : allN linesNotRunning b = true) :
     ∃ b', blockInInline b = .ok b' ∧ b'.ty = b.ty ∧ b'.a = b.a :=
-  blockInInline_total' b h h3 h4
+  blockInInline_total' b h h4
 
-/-- after BlockInInline no line box contains an in-flow block-level box, directly or through inline
-    boxes: blocks inside inlines have split them -/
+/-- after BlockInInline no line box contains an in-flow block-level box, directly or through (non-running)
+    inline boxes: blocks inside inlines have split them -/
 theorem blockInInline_wf (b b' : Box) (hb : blockInInline b = .ok b') (h : allAll linesAlone b = true) :
-    allN linesClean b' = true :=
+    allN linesCleanR b' = true :=
   blockInInline_linesClean b b' hb h
 
-/-
-  FULL STATEMENT (false for the code):
-    theorem blockInInline_keeps_blockContainers (b b' : Box) (hb : blockInInline b = .ok b')
-        (h1 : allN bcOK b = true) (h2 : allN linesAlone b = true) : allN bcOK b' = true
-  i.e. splitting preserves the block-container clause.  It fails when an inline box with
-  `position: running()` contains a block-level box: every earlier pass left that subtree untouched,
-  BlockInInline splits it nevertheless and hoists a block whose content never got its line boxes
-  (`running_inline_split`, replayed on the real code as KF09-2: layout then panics).  What holds:
--/
-
-theorem blockInInline_keeps_blockContainers_partial (b b' : Box) (hb : blockInInline b = .ok b')
-    (h1 : allN bcOK b = true) (h2 : allN linesAlone b = true)
-    (h3 : allN linesNoRunningInline b = true) (h4 : allN linesNotRunning b = true) :
+/-- splitting preserves the block-container clause -/
+theorem blockInInline_keeps_blockContainers (b b' : Box) (hb : blockInInline b = .ok b')
+    (h1 : allN bcOK b = true) (h2 : allN linesAlone b = true) (h4 : allN linesNotRunning b = true) :
     allN bcOK b' = true :=
-  blockInInline_bcOK b b' hb h1 h2 h3 h4
+  blockInInline_bcOK b b' hb h1 h2 h4
 
-/-- the counterexample: Block[Line[Inline(running)["a", Block["b"], "c"]]] -/
-theorem running_inline_split :
-    ∃ b', blockInInline splitWitness = .ok b' ∧ allN bcOK splitWitness = true ∧
-      allN linesAlone splitWitness = true ∧ allN bcOK b' = false :=
-  running_inline_split_witness
+/-- regression example for the repaired defect KF09-2: Block[Line[Inline(running)["a", Block["b"], "c"]]]
+    — a running inline box is opaque, the tree comes back unchanged (before the fix the block was hoisted
+    out with its bare text child and layout panicked) -/
+theorem running_inline_kept :
+    ∃ b', blockInInline splitWitness = .ok b' ∧ allN bcOK b' = true ∧ b' = splitWitness :=
+  WR.C09.running_inline_kept
 
 example : allAll linesAlone splitWitness = true := by decide
 
-/-- InlineInBlock then BlockInInline, chained: on a tree of the shape `preIIB` without running inline
-    boxes both passes succeed and the result satisfies the block-container clause and has clean lines -/
-theorem inline_passes_wf (g : Box) (h : allN preIIB g = true) (hr : allN noRunInl g = true) :
+/-- InlineInBlock then BlockInInline, chained: on every tree of the shape `preIIB` both passes succeed and
+    the result satisfies the block-container clause and has clean lines -/
+theorem inline_passes_wf (g : Box) (h : allN preIIB g = true) :
     ∃ i o, inlineInBlock g = .ok i ∧ blockInInline i = .ok o ∧ o.ty = g.ty ∧ o.a = g.a ∧
-      allN bcOK o = true ∧ allN linesClean o = true :=
-  WR.C09.inline_passes_wf g h hr
+      allN bcOK o = true ∧ allN linesCleanR o = true :=
+  WR.C09.inline_passes_wf g h
 
-example : allN preIIB exCompose = true ∧ allN noRunInl exCompose = true := by decide
+example : allN preIIB exCompose = true := by decide
 
 /-! ## 3. Flex and grid items -/
 
@@ -252,16 +262,17 @@ theorem inlinePasses_wf (g : Box) (h : allW postGrid g = true) (hroot : isBlockL
 
 /-
   FULL STATEMENT (the design's `createAnonymous_wf`, false for the code):
-    theorem createAnonymous_wf (b : Box) (h : allW rawOK' b = true) (root hypotheses) :
+    theorem createAnonymous_wf (b : Box) (h : allW pt_rawOK b = true) (root hypotheses) :
         ∃ r, createAnonymousBox b = .ok r ∧ WF r
-  where rawOK' is `pt_rawOK` without the conjunct "no inline box is running" and `WF r` is
-  `wfRoot r = true` with the full grid clause.  It is false twice: `grid_disjoint_witness` (KF09-1) and
-  `running_inline_split` (KF09-2).  What holds, for every raw tree without running inline boxes:
+  with `WF r` = `wfRoot r = true`, i.e. with the full grid clause.  It is false only because of
+  `grid_disjoint_witness` (KF09-1).  What holds, for every raw tree, is the same with the grid clause
+  weakened to `gridOKw`, which allows shared slots in exactly the situation `overlap175`
+  (`overlaps_only_175_of_weak_clause`):
 -/
 
 /-- CreateAnonymousBox succeeds (no panic in any pass, all loops end within their fuel) on every raw tree
     (`pt_rawOK` everywhere: the shape elementToBox produces — evaluated by the harness on every real raw
-    tree —, cells span ≥ 1 column, no running inline box) with a non-running block-level root that is not an
+    tree —, cells span ≥ 1 column) with a non-running block-level root that is not an
     inline table; the result has a block-level non-table root and satisfies every clause of `WF` at every box
     outside running subtrees, the grid clause in the weakened form `gridOKw`
     (`wfw` = `wf` with `gridOK` replaced by `gridOKw`). -/
